@@ -395,6 +395,11 @@ func (e *Engine) scanCallMods(call *ssa.CallCommon, li *loopInfo, ms *modSet, de
 	if fn == nil {
 		fn = e.globalFuncOf(call.Value) // read-only package-level func variable
 	}
+	if fn == nil && e.curContract != nil {
+		if g := e.curContract.FnParamCounts[fnParamName(call.Value)]; g != "" {
+			ms.ghosts[g] = true // the invocation counter changes with every call
+		}
+	}
 	if fn == nil && e.curContract != nil && e.curContract.FnParamPure[fnParamName(call.Value)] {
 		return // assumed effect-free (fnparam ... pure)
 	}
@@ -628,6 +633,12 @@ func (e *Engine) applyModSet(st *State, ms *modSet, resolve func(ssa.Value) *Val
 		// private to the verified function (their own modifications by the
 		// loop are havoc'd explicitly below)
 		e.havocAllKeepPrivate(st)
+		// unknown code may call the counted function values any number of times
+		if e.curContract != nil {
+			for _, g := range e.curContract.FnParamCounts {
+				e.ghostHavoc(st, g)
+			}
+		}
 		st.taint["loop havoc all: "+strings.Join(ms.why, "; ")] = true
 		if traceInline {
 			fmt.Println("HAVOC-ALL in loop/callback:", strings.Join(ms.why, "; "))
